@@ -271,6 +271,16 @@ impl PrimitiveFixedWidthEncode for i64'''),
             cnt += 1;
         }
         txn.commit().await?;'''),
+    # --- C01-R3 (model assumptions)
+    ('c01_all_depend_on_weakened', 'C01', 'all_depend_on·shape', 'src/planner/rules/plan.rs',
+     'used.is_subset(&produced)', '!used.is_disjoint(&produced)'),
+    ('c01_is_orderby_swapped', 'C01', 'is_orderby·shape', 'src/planner/rules/order.rs',
+     'plan_keys.starts_with(keys)', 'keys.starts_with(plan_keys)'),
+    ('c01_is_less_than_is_le', 'C01', 'is_less_than·is·lt', 'src/planner/rules/expr.rs',
+     'value_cmp(var1, var2, |d1, d2| d1.lt(d2))', 'value_cmp(var1, var2, |d1, d2| d1.le(d2))'),
+    # --- C20-R5
+    ('c20_export_not_truncated', 'C20', 'writer·target-truncated', 'src/executor/copy_to_file.rs',
+     'let file = File::create(path)?;', 'let file = File::options().write(true).create(true).open(path)?;'),
 ]
 
 
